@@ -439,6 +439,7 @@ macro_rules! leaky_cfg {
                 ctx.nontrivial();
             }
             if mode == 5 {
+                comparing(true);
                 // the conversions below reserve `size_hint().0` entries: a lower bound above the
                 // real length makes them reserve (and, where memory is limited, fail to
                 // reserve) gigabytes for a handful of symbols
@@ -463,6 +464,7 @@ macro_rules! leaky_cfg {
                 // a reference to the model is the same model
                 tables_equal(&t, &table_from_encoder::<_, P>(&&m, support(), key, "C05", "&model")?, "encoder view", "reference to model")?;
                 ctx.label("representations_compared");
+                comparing(false);
             }
             if mode == 18 {
                 diagnostics::<_, P>(&m, &t, src, ctx, &what)?;
@@ -518,12 +520,18 @@ fn leaky_inner(src: &mut Src, ctx: &mut Ctx) -> CaseResult {
 pub fn leaky(src: &mut Src, ctx: &mut Ctx) -> CaseResult {
     let mode = ctx.param;
     let r = if mode == 5 || mode == 18 {
+        comparing(false);
         match vengine::catch(|| leaky_inner(src, ctx)) {
             Ok(r) => r,
             Err(p) if p.origin == vengine::PanicOrigin::Harness => panic!("harness bug: {}", p.render()),
             Err(p) if p.origin == vengine::PanicOrigin::Dependency => {
+                comparing(false);
                 ctx.discard("dep_panic");
                 return Ok(());
+            }
+            Err(p) if is_comparing() => {
+                comparing(false);
+                return Err(Fail::new(format!("C{:02}/panic_in_conversion_or_accessor/{}", mode, p.signature()), p.render()));
             }
             Err(_) => {
                 ctx.discard("foreign:panic_in_model_code");
